@@ -108,6 +108,7 @@ int main(int argc, char ** argv)
     std::string pat = argc > 3 ? argv[3] : "e";
     bool rect = argc > 4 && atoi(argv[4]) != 0;
     bool axis_z = !(argc > 5 && argv[5][0] == 's');
+    bool err_flag = argc > 6 && argv[6][0] == 'E';   // error_on_missing_particle requested
     event ev;
     ev.grab_particles().reserve(8);
     std::vector<double> px, py, pz, tt;
@@ -132,10 +133,18 @@ int main(int argc, char ** argv)
     bool threw = false;
     hx::SymPrng prng;
     try {
-      if (rect) op.set_with_aperture_rectangular_cut(ELECTRON, rank, ax, ay, az, ap1, ap2, false);
-      else op.set(ELECTRON, rank, ax, ay, az, ap1, false);
+      if (rect) op.set_with_aperture_rectangular_cut(ELECTRON, rank, ax, ay, az, ap1, ap2, err_flag);
+      else op.set(ELECTRON, rank, ax, ay, az, ap1, err_flag);
       op(prng, ev);
     } catch (std::exception &) { threw = true; }
+    {
+      // "if nothing is selected the event is unchanged or, on request, an error is raised": an exception exactly when the
+      // error was requested and no particle of the species exists at the requested rank
+      int nsel = 0;
+      { int r = 0; for (size_t i = 0; i < pat.size(); i++) if (codes[i] == ELECTRON) { if (rank < 0 || r == rank) nsel++; r++; } }
+      obligations++;
+      if (threw != (err_flag && nsel == 0)) { failed++; std::cout << "{\"type\":\"obligation\",\"unit\":" << hx::jstr(g_unit) << ",\"level\":null,\"what\":\"an error is raised exactly when it was requested and nothing is selected\",\"verdict\":\"refuted\",\"model\":{\"deviates\":[],\"others\":{}}}" << std::endl; }
+    }
     if (threw) { paths_threw++; return; }
     if (sx::draws() > max_draws) max_draws = sx::draws();
     const auto & P = ev.get_particles();
